@@ -24,7 +24,7 @@ MANIFEST = dict(
     note='Trusted: Coq kernel + vm_compute, translate/c19_walk.py, zipfile, the VPK writer of vpk.py (and VPK.fileinfos only through a shape check), the OS directory semantics (RawFileSystem: exact names via os.path.isfile/open/os.walk after abspath; RootEscapeError belongs to C18). Model restrictions: ASCII case folding only in the model (non-ASCII casefold is searched on the in-memory and zip backends; VPK names are ASCII); stored names are clean relative "/" paths; ".." segments are modelled (full posixpath.normpath) and compared by correspondence but the general noise theorem covers only empty and "." segments; the composition theorems assume empty or clean prefixes and folders (other spellings: correspondence and oracle); absolute paths are outside the statement. Which of two stored names differing only in case wins depends on container order (c19_lookup_order_matters_for_case_duplicates); VPK regroups files, see known finding case-duplicate-winner-vpk-differs. Observations (not violations): RawFileSystem.open_bin of a directory raises IsADirectoryError where the others raise FileNotFoundError; File.path of a lookup differs per backend.',
 )
 
-IMPORTS = ['Coq.Lists.List', 'Coq.NArith.NArith', 'Coq.Bool.Bool', 'SV.SM.FsChain', 'SV.SM.FsChainForms', 'SV.Gen.FsWalk_gen']
+IMPORTS = ['Coq.Lists.List', 'Coq.NArith.NArith', 'Coq.Bool.Bool', 'SV.SM.FsChain', 'SV.SM.FsChainForms', 'SV.SM.FsChainRead', 'SV.Gen.FsWalk_gen']
 PRE = '''Import ListNotations. Open Scope N_scope.
 Fixpoint l1_eqb (a b : list N) : bool := match a, b with [], [] => true | x :: a', y :: b' => (x =? y) && l1_eqb a' b' | _, _ => false end.
 Fixpoint l2_eqb (a b : list (list N)) : bool := match a, b with [], [] => true | x :: a', y :: b' => l1_eqb x y && l2_eqb a' b' | _, _ => false end.
@@ -32,7 +32,7 @@ Fixpoint l3_eqb (a b : list (list (list N))) : bool := match a, b with [], [] =>
 Fixpoint bad_idx {A} (f : A -> bool) (n : N) (l : list A) : list N := match l with [] => [] | x :: r => (if f x then [] else [n]) ++ bad_idx f (n + 1) r end.
 Definition code (o : option file) : list N := match o with Some (_, b) => 1 :: b | None => [0] end.
 Definition vcode (lim : N) (d : bool) (c : cexpr) (o : option file) : list N :=
-  match o with Some (_, b) => 1 :: ceval c (vf_place (N.to_nat lim) d b) | None => [0] end.
+  match o with Some (_, b) => 1 :: ceval_r vpk_reader c (rfile_of [] [] (N.to_nat lim) d b) | None => [0] end.
 Definition obs (k : N) (lim : N) (d : bool) (b : backend) (fs : list file) (qs folders : list str) : list (list (list N)) :=
   let cb := fun o => if k =? 2 then vcode lim d vpk_open_bin_content o else code o in
   let cs := fun o => if k =? 2 then vcode lim d vpk_open_str_content o else code o in
@@ -148,6 +148,17 @@ Proof.
   - destruct Hb as [<-|[<-|[<-|[]]]]; vm_compute; reflexivity.
 Qed.
 Print Assumptions today_chain_walk_every_entry_spec.
+(* today's FileInfo.read() and today's open_bin / open_str over it hand out the stored bytes wherever the VPK keeps them *)
+Theorem today_vpk_reader_whole : forall c before after limit in_dir data,
+  In c [vpk_open_bin_content; vpk_open_str_content] ->
+  reval vpk_reader (rfile_of before after limit in_dir data) = data
+  /\\ ceval_r vpk_reader c (rfile_of before after limit in_dir data) = data.
+Proof.
+  intros c before after limit in_dir data Hc. split.
+  - apply c19_vpk_reader_whole_all_placements. vm_compute. reflexivity.
+  - apply c19_vpk_open_through_reader; [vm_compute; reflexivity|]. destruct Hc as [<-|[<-|[]]]; vm_compute; reflexivity.
+Qed.
+Print Assumptions today_vpk_reader_whole.
 '''
 
 BACKENDS = ['virtual', 'zip', 'vpk', 'raw']
@@ -1332,7 +1343,7 @@ def run(ck: Ck) -> None:
         fut_thm = pool.submit(ck.theorems, 'Props/C19.v')      # Print Assumptions of every theorem (its obligations are moved to the front below)
         fut_compose = pool.submit(ck.coq_scratch, ''.join(f'Require Import {i}.\n' for i in IMPORTS + ['SV.SM.FsChainProofs', 'SV.SM.FsChainCompose', 'SV.Props.C19'])
                                   + INSTANCE_THEOREM, 'inst_compose', 300)
-        fut_forms = pool.submit(ck.coq_scratch, ''.join(f'Require Import {i}.\n' for i in IMPORTS + ['SV.SM.FsChainProofs', 'SV.SM.FsChainCompose', 'SV.SM.FsChainFormsProofs', 'SV.SM.FsChainWhole', 'SV.Props.C19'])
+        fut_forms = pool.submit(ck.coq_scratch, ''.join(f'Require Import {i}.\n' for i in IMPORTS + ['SV.SM.FsChainProofs', 'SV.SM.FsChainCompose', 'SV.SM.FsChainFormsProofs', 'SV.SM.FsChainWhole', 'SV.SM.FsChainReadProofs', 'SV.Props.C19'])
                                 + INSTANCE_THEOREM_FORMS, 'inst_forms', 300)
         _tc = time.time()
         obs = {}
@@ -1364,6 +1375,7 @@ def run(ck: Ck) -> None:
         obs['filesystem_getitem_contains_iter_delegate'] = 'fs_dunders_delegate'
         obs['vpk_open_bin_reads_whole_file'] = 'cexpr_whole false vpk_open_bin_content'
         obs['vpk_open_str_reads_whole_file'] = 'cexpr_whole false vpk_open_str_content'
+        obs['vpk_reader_returns_preload_and_exact_rest'] = 'rexpr_whole None false vpk_reader'
         ck.instance_obligations(IMPORTS, obs)
         _td = time.time()
         # the composition theorem instantiated at the generated configuration (type-checks only if today's chain
@@ -1375,8 +1387,8 @@ def run(ck: Ck) -> None:
         rc, out = fut_forms.result()
         ck.obligation('instance-theorem:chain_exists_and_vpk_bytes', rc == 0,
                       'c19_chain_exists_agrees_backends at chain_exists_mode, c19_vpk_open_same_bytes at vpk_open_bin_content / '
-                      'vpk_open_str_content and c19_chain_every_form_spec (every lookup form of a chain = the specification) over '
-                      'virtual_cfg / zip_cfg / vpk_cfg' + ('' if rc == 0 else ': ' + out[-400:]))
+                      'vpk_open_str_content, c19_chain_every_form_spec (every lookup form of a chain = the specification) over '
+                      'virtual_cfg / zip_cfg / vpk_cfg, c19_vpk_open_through_reader at vpk_reader' + ('' if rc == 0 else ': ' + out[-400:]))
         import time as _t
         t0 = _t.time(); corr_backends(ck, root); t1 = _t.time(); corr_chain(ck, root); t2 = _t.time()
         ck.extra['stage_seconds'] = {'translate_build': round(_tb - _ta, 1), 'instance_obligations': round(_td - _tc, 1),
@@ -1427,8 +1439,13 @@ def run(ck: Ck) -> None:
                        (('_get_file:', '__getitem__'), ('chain-get-', 'chain-get_file-')),
                        (('walk_folder_repeat', 'FileSystemChain.walk_folder', 'walk_folder:', '__iter__'), ('chain-walk-', 'chain-iter-')),
                        (('add_sys',), ('chain-get-not-first-match',)),
-                       (('VPKFileSystem.open', 'content expression', 'content helper'), ('content-vpk',))):
+                       (('VPKFileSystem.open', 'content expression', 'content helper', 'FileInfo.read'), ('content-vpk',))):
         if terr and any(x in terr for x in subs) and any_key(*pats):
+            ck.explain('translate:')
+    for cname, attr, short in (('VirtualFileSystem', '_mapping', 'virtual'), ('ZipFileSystem', '_name_to_info', 'zip'),
+                               ('VPKFileSystem', '_name_to_file', 'vpk'), ('RawFileSystem', '_resolve_path', 'raw')):
+        # a backend the translator could not classify, and a concrete violation on that very backend
+        if terr and (cname in terr or attr in terr) and any_key(f'lookup-{short}-', f'walk-{short}-', f'content-{short}'):
             ck.explain('translate:')
     if any_key('chain-contains-', 'chain-file_exists-'):
         ck.explain('instance:chain_exists_asks_each_member_its_own_name')
@@ -1440,6 +1457,9 @@ def run(ck: Ck) -> None:
         ck.explain('instance-theorem:chain_exists_and_vpk_bytes')
     if any_key('content-vpk-&-open_str-'):
         ck.explain('instance:vpk_open_str_reads_whole_file')
+        ck.explain('instance-theorem:chain_exists_and_vpk_bytes')
+    if any_key('content-vpk'):
+        ck.explain('instance:vpk_reader_returns_preload_and_exact_rest')
         ck.explain('instance-theorem:chain_exists_and_vpk_bytes')
     if any_key('chain-iter-', 'chain-contains-', 'chain-get-'):
         ck.explain('instance:filesystem_getitem_contains_iter_delegate')
@@ -1455,6 +1475,9 @@ def run(ck: Ck) -> None:
     if any_key('chain-walk-', 'chain-get-', 'walk-virtual-', 'walk-zip-', 'walk-vpk-', 'lookup-virtual-', 'lookup-zip-', 'lookup-vpk-'):
         # the composition theorem needs sound backends, skip-de-duplication and prefix-relative names
         ck.explain('instance-theorem:chain_walk_lookup_closed')
+    if any_key('lookup-virtual-', 'lookup-zip-', 'lookup-vpk-'):
+        # the instance needs every backend to normalise its keys (backend_keys_norm at the generated configuration)
+        ck.explain('instance-theorem:chain_exists_and_vpk_bytes')
     if any_key('chain-walk-'):
         ck.explain('instance:chain_walk_in_member_order')
         ck.explain('instance:chain_dedup_ignores_case')
